@@ -18,7 +18,11 @@
      isinstance(x, _ModuleT), isinstance(x, CanContainImportsDocumentable)   the class tags of the store;
      obj.report(...)                      does not touch the registry and does not raise;
      `self.parentMod = ...`               not part of the model (dropped by the translator);
-     truthiness of a Documentable is True (it defines neither __bool__ nor __len__).
+     truthiness of a Documentable is True (it defines neither __bool__ nor __len__);
+     `for x in _iter_subtree(root): body` (only when the source defines the module-level generator _iter_subtree, whose
+         body the translator pins to the explicit-stack pre-order walk `pending = [root]; while pending: ob = pending.pop();
+         yield ob; pending.extend(reversed(list(ob.contents.values())))`): the objects of Registry.subtree, in that
+         order, with the fuel of Registry.subtree; the loop body does not change any `contents`.
    Ghost instrumentation (no Python counterpart): an assignment to `.parent` doubles the recursion-fuel bound depthb
    exactly as Registry.reparent does; handleDuplicate flags the renamed object `osup` (done by hd_ir, outside the code).
    Failures: every Python exception, running out of fuel, and a type error of the language itself (`stuck`, e.g. `.name`
@@ -86,6 +90,7 @@ Inductive stmt :=
 | SIf (c : cond) (th el : stmt)
 | SWhile (c : cond) (body : stmt)
 | SFor (x : var) (e : expr) (body : stmt)
+| SForSubtree (x : var) (root : expr) (body : stmt)   (* for x in _iter_subtree(root): body *)
 | SCall (f : fname) (args : list expr).
 
 Definition env := var -> value.
@@ -277,6 +282,14 @@ Section Exec.
     | SFor x l body =>
       match eval s e l with
       | Some (VList os) => for_loop (exec body) x os e s
+      | _ => None
+      end
+    | SForSubtree x r body =>
+      match eval s e r with
+      | Some (VObj o) => match subtree s o with
+                         | Some T => for_loop (exec body) x T e s
+                         | None => None
+                         end
       | _ => None
       end
     | SCall f args =>
